@@ -10,10 +10,15 @@ import numpy as np
 
 from sim import world as W
 from sim import tksim
-from sim.core import World as BaseWorld, Violation, HarnessError, h64
+from sim.core import World as BaseWorld, Violation, HarnessError, LineTracer, Interrupt, h64
 
 NAME = "backend"
 ATOL = 1e-9
+
+
+def lib_prefix():
+    import os
+    return os.path.join(os.path.realpath(W.REPO), "discopy") + os.sep
 
 CORE_KINDS = ["ket", "ket", "g1", "g1", "rot", "g2", "g2", "crz", "swapq", "measure",
               "measure_nd", "discard", "bra", "scalar", "cgate_named"]
@@ -38,6 +43,7 @@ def make_config(prop, rng, tier):
         "p_import": rng.choice([0.1, 0.25, 0.5]),
         "batch_max": rng.choice([1, 2, 3]),
         "p_inputs": rng.choice([0.0, 0.2, 0.5]),
+        "p_interrupt": rng.choice([0.0, 0.0, 0.1, 0.25]),
         **({"max_boxes": rng.choice([10, 12, 14]), "max_steps": 30, "batch_max": 4}
            if tier == "thorough" and rng.random() < 0.3 else {}),
     }
@@ -340,6 +346,16 @@ class World(BaseWorld):
         if fn is None:
             raise HarnessError("unknown op %r" % op["op"])
         W.MON.fired.clear()
+        if op.get("interrupt_at"):
+            # F5: the call is interrupted at an arbitrary line inside the library; whatever it
+            # left behind, the same call made again right afterwards must give the right answer
+            try:
+                with LineTracer(lib_prefix(), "interrupt", op["interrupt_at"]):
+                    fn(dict(op, interrupt_at=None))
+                self.note("F5_missed")
+            except Interrupt:
+                self.note("F5_fired")
+            W.MON.fired.clear()
         out = fn(op)
         self.monitor_after_op(op)
         self.note("op_" + op["op"])
@@ -711,7 +727,10 @@ class Driver:
             return {"op": "import", "tk": tksim.gen_tk_spec(gen)}
         src = sched.choice(names)
         if r < 0.35:
-            return {"op": "export", "src": src}
+            op = {"op": "export", "src": src}
+            if self.s["fault"].random() < cfg.get("p_interrupt", 0.0):
+                op["interrupt_at"] = max(1, int(5000 ** self.s["fault"].random()))
+            return op
         if r < 0.45:
             return {"op": "roundtrip", "src": src}
         if r < 0.52:
@@ -728,6 +747,8 @@ class Driver:
         if sched.random() < 0.25:
             op["compilation"] = sched.choice(["identity", "remove_redundancies", "commute", "failing",
                                               "mutate_then_fail"])
+        if self.s["fault"].random() < cfg.get("p_interrupt", 0.0):
+            op["interrupt_at"] = max(1, int(20000 ** self.s["fault"].random()))
         if r < 0.72:
             op["op"] = "eval"
         elif r < 0.9:
@@ -763,6 +784,10 @@ def shrink_op(op):
     if op.get("compilation"):
         cand = dict(op)
         del cand["compilation"]
+        yield cand
+    if op.get("interrupt_at"):
+        cand = dict(op)
+        del cand["interrupt_at"]
         yield cand
     if op.get("plan") and op["plan"].get("fail_at"):
         cand = dict(op)
